@@ -31,6 +31,7 @@ def scheme_term_scaled(pen, scale):
 
 
 class Scores(Suite):
+    seasoned_rate = 0.2
     names_rate, past_rate = 0.08, 0.08     # hostile element names / datasets with a past (gen.decorate_cases)
     name = "scores"
     imports = ["Scheme", "Rank", "KemenyImpl", "Judge.JC04"]
@@ -51,6 +52,24 @@ class Scores(Suite):
             n = rng.randint(1, 6)
             D = [gen.random_ranking(rng, list(range(n)), 1.0, rng.choice([1.0, 0.6, 0.3])) for _ in range(rng.randint(1, 5))]
             cases.append({"s": opt_scheme(rng), "D": D, "one": rng.random() < 0.5})
+        # incomplete datasets under ANY valid scheme (the algorithms that refuse are skipped: BioConsert, KwikSort, Copeland, ParCons and
+        # the exact algorithms accept them all), half of them "the same once unified": every ranking is a head of one reference ranking,
+        # so that unification gives the same ranking everywhere although the dataset is incomplete and the true score is not 0
+        for _ in range(60 if tier == "quick" else 800):
+            n = rng.randint(2, 6)
+            if rng.random() < 0.5:
+                ref = gen.random_ranking(rng, list(range(n)), 1.0, rng.choice([1.0, 0.7, 0.4]))
+                D = []
+                for _ in range(rng.randint(2, 4)):
+                    k = rng.randint(1, len(ref))
+                    D.append([list(b) for b in ref[:k]])
+                if rng.random() < 0.3:
+                    D.append(gen.random_ranking(rng, list(range(n)), 0.7, 0.6))
+            else:
+                D = [gen.random_ranking(rng, list(range(n)), rng.choice([0.8, 0.6, 0.4]), rng.choice([1.0, 0.7, 0.4])) for _ in range(rng.randint(2, 5))]
+            if not any(D):
+                D[0] = [[0]]
+            cases.append({"s": opt_scheme(rng) if rng.random() < 0.7 else gen.pick_scheme(rng), "D": D, "one": rng.random() < 0.5})
         # penalties on a fine dyadic grid: scores of different rankings may differ by ~1e-5 only
         for _ in range(50 if tier == "quick" else 600):
             eps = rng.choice([2.0 ** -17, 2.0 ** -16, 2.0 ** -18])
@@ -63,9 +82,6 @@ class Scores(Suite):
             cases.append({"s": s, "D": D, "one": rng.random() < 0.5, "scale": FINE})
         cases.append({"s": [[0.0, 1.0, 0.5 + 2.0 ** -17, 0.0, 1.0, 0.5 + 2.0 ** -17], [0.5 + 2.0 ** -17] * 2 + [0.0] + [0.5 + 2.0 ** -17] * 2 + [0.0]],
                       "D": [[[1], [2]], [[2], [1]]], "one": False, "scale": FINE})
-        for c in cases:
-            if rng.random() < 0.2:
-                c["seasoned"] = True      # the algorithm objects have served before the judged call (algos.seasoned)
         return cases
 
     def run(self, case):
@@ -120,7 +136,6 @@ class Scores(Suite):
         acc["runs"] = acc.get("runs", 0) + len(out["runs"])
         acc["exceptions"] = acc.get("exceptions", 0) + sum(1 for r in out["runs"] if "err" in r)
         acc["lazy_scores"] = acc.get("lazy_scores", 0) + sum(1 for r in out["runs"] if r.get("lazy"))
-        acc["seasoned_algorithm_objects"] = acc.get("seasoned_algorithm_objects", 0) + int(bool(case.get("seasoned")))
         acc["several_rankings"] = acc.get("several_rankings", 0) + sum(1 for r in out["runs"] if len(r.get("cons", [])) > 1)
         acc["one=" + str(case["one"])] = acc.get("one=" + str(case["one"]), 0) + 1
 
